@@ -1096,11 +1096,12 @@ package gohlslib
 //@ end
 
 //@ func clientStreamDownloader.runLowLatency
-//@   props C10 C11 C20
-//@   nosafety
+//@   props C10 C11 C13 C20
 //@   noframe
 //@   nocallpre
-//@   modifies *
+//@   requires ctx != nil && d.firstPlaylist != nil && d.firstPlaylist.ServerControl != nil && d.firstPlaylist.PreloadHint != nil && d.segmentQueue != nil
+//@   modifies clientSegmentQueue.queue, clientSegmentQueue.didPush
+//@   loop 1 invariant pl != nil && pl.PreloadHint != nil && d.firstPlaylist == old(d.firstPlaylist) && d.firstPlaylist.ServerControl != nil && d.segmentQueue != nil
 //@   atcall clientStreamDownloader.downloadPreloadHint arg2 == pl.PreloadHint
 //@   atcall clientSegmentQueue.push arg1 != nil && arg1.payload == byts && arg1.dateTime == callres("dateTimeOfPreloadHint", calls("dateTimeOfPreloadHint") - 1)
 //@        && callarg("dateTimeOfPreloadHint", calls("dateTimeOfPreloadHint") - 1, 0) == pl
@@ -1248,10 +1249,11 @@ package gohlslib
 //@ end
 
 //@ func clientStreamDownloader.downloadPlaylist
-//@   props C11
+//@   props C11 C13
 //@   nosafety
 //@   noframe
 //@   nocallpre
+//@   ensures result1 == nil ==> result0 != nil
 //@ end
 
 //@ pred isVOD(pl *playlist.Media) := pl.PlaylistType != nil && *pl.PlaylistType == "VOD"
@@ -1738,11 +1740,12 @@ package gohlslib
 //@   ensures (result == nil && seg != nil) ==> callsum("clientStreamProcessorFMP4.joinTrackProcessors", 2) == calls("clientTrackProcessorFMP4.push")
 //@ end
 
+// C10: every dated segment re-binds the date-time (AbsoluteTime is relative to the unit's own segment)
 //@ func clientTimeConvFMP4.setNTP
-//@   props C13
+//@   props C09 C10 C13
 //@   requires unheld(&ts.mutex)
 //@   modifies ts.ntpAvailable, ts.ntpValue, ts.ntpTimestamp, ts.ntpClockRate
-//@   ensures ts.ntpAvailable && ts.ntpTimestamp == timestamp && ts.ntpClockRate == clockRate
+//@   ensures ts.ntpAvailable && ts.ntpTimestamp == timestamp && ts.ntpClockRate == clockRate && ts.ntpValue == value
 //@ end
 
 //@ func clientTimeConvFMP4.getNTP
